@@ -235,7 +235,7 @@ def gen_template(rng):
     k = rng.randrange(7)
     pb = rng.choice([1, 2])
     t = rng.choice(["preempt_owner", "preempt_owner", "pop_window", "pushback", "owner_fails", "refill", "refill",
-                    "owner_dropped", "owner_dropped"])
+                    "owner_dropped", "owner_dropped", "bg_attempt_dies", "bg_attempt_dies"])
     if t == "preempt_owner":
         ops = [["I", k, 1], ["P", 0], ["D", 0, "o"], ["P", 0],
                ["I", k, 2], ["P", 1], ["I", k, pb], ["P", 2],
@@ -277,6 +277,17 @@ def gen_template(rng):
         ops += rng.choice([[["D", 0, "o"], ["B"]], [["D", 0, "c"], ["B"]], [["B"], ["D", 0, "o"], ["B"]]])
         ops += [["P", 1], ["I", k, 2], ["P", 3 if len([o for o in ops if o[0] == "I"]) == 3 else 2]]
         nreq, nconn = 4, 2
+    elif t == "bg_attempt_dies":
+        # an HTTP/1 holder, then an HTTP/2 owner whose attempt has started is dropped (the attempt goes on in the
+        # background or is dropped); the HTTP/1 connection comes back while nobody is queued; the abandoned attempt
+        # then ends (fails / succeeds); newcomers: one finds the idle connection, the next one finds nothing
+        ops = [["I", k, 1], ["P", 0], ["D", 0, "o"], ["P", 0], ["I", k, 2], ["P", 1], ["X", 1]]
+        ops += rng.choice([[], [["B"]]])
+        ops += [["F", 0], ["P", 0], ["R", 0], ["B"]]
+        ops += rng.choice([[["D", 1, "c"]], [["D", 1, "h"]], [["D", 1, "c"]], [["D", 1, "a"]], []]) + [["B"]]
+        ops += [["I", k, rng.choice([1, 2])], ["P", 2], ["I", k, 2], ["P", 3]]
+        ops += rng.choice([[], [["I", k, 1], ["P", 4]]])
+        nreq, nconn = 5, 2
     else:  # owner_fails
         ops = [["I", k, 2], ["I", k, pb], ["I", k, 2], ["P", 0], ["P", 1], ["P", 2]]
         ops += rng.choice([[["D", 0, "c"], ["P", 0]], [["D", 0, "h"], ["P", 0]], [["X", 0], ["B"]], [["X", 0], ["D", 0, "c"], ["B"]]])
@@ -401,7 +412,7 @@ class Pool(Plugin):
         "hook: ConnectionPoolService::verif_pool_snapshot (feature verif-hooks, read-only)",
     ]
     assumptions = ["ops are atomic (single-threaded schedule); wall clock only advances through Tick (real sleeps of 1000 ms against an idle timeout of 400 ms)"]
-    n_quick = 700
+    n_quick = 1200
     n_thorough = 20000
     timed_fraction = 0.18
 
@@ -461,7 +472,7 @@ class Pool(Plugin):
                                "re-issue injected into the window between an Issue and its first poll), phase-structured histories "
                                "(bursts served, partial releases + hand-back, ticks, peer closes, newcomers), timed 'aging' histories "
                                f"(real sleeps: {TICK_MS} ms ticks vs a {TIMEOUT_MS} ms idle timeout; {kinds['timed']} timed cases) and perturbed interleaving "
-                               "templates (pre-empted owner, pop window, push-back, failing owner, refill at the idle limit, owner dropped) and idle-limit "
+                               "templates (pre-empted owner, pop window, push-back, failing owner, refill at the idle limit, owner dropped, abandoned background attempt dying after the queue emptied) and idle-limit "
                                "histories (idle list driven to max_idle, entries closed in place, further releases, newcomers); 1-3 origins "
                                "from a table of 7 URIs differing in scheme/port/host/case + one without scheme + 3 whose request carries an explicit Host header naming another or the same origin, h1/h2/ALPN mixed, dial "
                                f"outcomes ok/alpn/connect-error/handshake-error; {kinds['drained']} cases end with the closing procedure + probe",
